@@ -36,6 +36,7 @@ type manifestFile struct {
 	Translated  []string    `json:"translated"`
 	Skipped     [][2]string `json:"skipped"`
 	NotSelected []string    `json:"not_selected"`
+	Extra       []string    `json:"extra"` // "<go file> sha256 <hash>" of the further files of the unit
 }
 
 type manifest struct {
@@ -55,53 +56,64 @@ func main() {
 
 	// ---- parse
 	for _, sp := range whitelist {
-		path := filepath.Join(*repo, sp.GoFile)
-		src, err := os.ReadFile(path)
-		if err != nil {
-			die("%v", err)
-		}
-		file, err := parser.ParseFile(t.fset, path, src, parser.ParseComments|parser.SkipObjectResolution)
-		if err != nil {
-			die("parse error: %v", err)
-		}
-		u := &unit{Spec: sp, File: file, Dir: filepath.Dir(sp.GoFile), Imports: map[string]string{}, Deps: map[string]bool{}, Consts: map[string]ast.Expr{}, PkgVars: map[string]ast.Expr{},
-			Sha: fmt.Sprintf("%x", sha256.Sum256(src)), SrcLines: strings.Count(string(src), "\n")}
-		for _, d := range file.Decls {
-			if gd, ok := d.(*ast.GenDecl); ok && gd.Tok == token.VAR {
-				for _, sp := range gd.Specs {
-					vs := sp.(*ast.ValueSpec)
-					if len(vs.Names) == len(vs.Values) {
-						for i, n := range vs.Names {
-							u.PkgVars[n.Name] = vs.Values[i]
+		var u *unit
+		for fi, gofile := range append([]string{sp.GoFile}, sp.ExtraFiles...) {
+			path := filepath.Join(*repo, gofile)
+			src, err := os.ReadFile(path)
+			if err != nil {
+				die("%v", err)
+			}
+			file, err := parser.ParseFile(t.fset, path, src, parser.ParseComments|parser.SkipObjectResolution)
+			if err != nil {
+				die("parse error: %v", err)
+			}
+			if fi == 0 {
+				u = &unit{Spec: sp, File: file, Dir: filepath.Dir(sp.GoFile), Imports: map[string]string{}, Deps: map[string]bool{}, Consts: map[string]ast.Expr{}, PkgVars: map[string]ast.Expr{},
+					Sha: fmt.Sprintf("%x", sha256.Sum256(src)), SrcLines: strings.Count(string(src), "\n")}
+			} else {
+				if filepath.Dir(gofile) != u.Dir {
+					die("extra file %s is not in the package of %s", gofile, sp.GoFile)
+				}
+				u.ExtraSha = append(u.ExtraSha, gofile+" sha256 "+fmt.Sprintf("%x", sha256.Sum256(src)))
+			}
+			u.Files = append(u.Files, file)
+			for _, d := range file.Decls {
+				if gd, ok := d.(*ast.GenDecl); ok && gd.Tok == token.VAR {
+					for _, sp := range gd.Specs {
+						vs := sp.(*ast.ValueSpec)
+						if len(vs.Names) == len(vs.Values) {
+							for i, n := range vs.Names {
+								u.PkgVars[n.Name] = vs.Values[i]
+							}
+						}
+					}
+				}
+				if gd, ok := d.(*ast.GenDecl); ok && gd.Tok == token.CONST {
+					for _, sp := range gd.Specs {
+						vs := sp.(*ast.ValueSpec)
+						if len(vs.Names) == len(vs.Values) {
+							for i, n := range vs.Names {
+								u.Consts[n.Name] = vs.Values[i]
+							}
 						}
 					}
 				}
 			}
-			if gd, ok := d.(*ast.GenDecl); ok && gd.Tok == token.CONST {
-				for _, sp := range gd.Specs {
-					vs := sp.(*ast.ValueSpec)
-					if len(vs.Names) == len(vs.Values) {
-						for i, n := range vs.Names {
-							u.Consts[n.Name] = vs.Values[i]
-						}
-					}
+			for _, im := range file.Imports {
+				p, _ := strconv.Unquote(im.Path.Value)
+				if (p == "slices" || p == "cmp" || p == "reflect") && im.Name == nil {
+					u.Imports[p] = "<std>/" + p
 				}
+				if !strings.HasPrefix(p, modulePath+"/") {
+					continue
+				}
+				dir := strings.TrimPrefix(p, modulePath+"/")
+				name := filepath.Base(dir)
+				if im.Name != nil {
+					name = im.Name.Name
+				}
+				u.Imports[name] = dir
 			}
-		}
-		for _, im := range file.Imports {
-			p, _ := strconv.Unquote(im.Path.Value)
-			if (p == "slices" || p == "cmp" || p == "reflect") && im.Name == nil {
-				u.Imports[p] = "<std>/" + p
-			}
-			if !strings.HasPrefix(p, modulePath+"/") {
-				continue
-			}
-			dir := strings.TrimPrefix(p, modulePath+"/")
-			name := filepath.Base(dir)
-			if im.Name != nil {
-				name = im.Name.Name
-			}
-			u.Imports[name] = dir
 		}
 		t.units = append(t.units, u)
 	}
@@ -134,7 +146,7 @@ func main() {
 			if err := os.WriteFile(p, []byte(text), 0o644); err != nil {
 				die("%v", err)
 			}
-			f := manifestFile{Go: u.Spec.GoFile, Coq: p, Module: u.Spec.Module, Sha256: u.Sha, Skipped: u.Skipped, NotSelected: u.NotSel}
+			f := manifestFile{Go: u.Spec.GoFile, Coq: p, Module: u.Spec.Module, Sha256: u.Sha, Skipped: u.Skipped, NotSelected: u.NotSel, Extra: u.ExtraSha}
 			for _, fi := range u.Funcs {
 				f.Translated = append(f.Translated, fi.Coq)
 			}
@@ -193,7 +205,7 @@ func (t *translator) collectStructs() {
 	}
 	var todo []pending
 	for _, u := range t.units {
-		for _, d := range u.File.Decls {
+		for _, d := range u.allDecls() {
 			gd, ok := d.(*ast.GenDecl)
 			if !ok || gd.Tok != token.TYPE {
 				continue
@@ -295,7 +307,7 @@ func (t *translator) collectFuncs() {
 		for _, n := range u.Spec.Funcs {
 			selected[n] = false
 		}
-		for _, d := range u.File.Decls {
+		for _, d := range u.allDecls() {
 			fd, ok := d.(*ast.FuncDecl)
 			if !ok {
 				continue
@@ -321,13 +333,19 @@ func (t *translator) collectFuncs() {
 				if !ok {
 					t.unsupported(fd.Pos(), "receiver of %s", name)
 				}
-				s := t.findStruct(u.Dir, rt, u)
-				if s == nil {
-					t.unsupported(fd.Pos(), "receiver type %s of %s is not a whitelisted struct", rt, name)
-				}
-				fi.Recv, fi.RecvName = s, rn
 				for _, tp := range tps {
 					fi.TypeParms[tp] = true
+				}
+				if a := t.opaqueIface(u, rt, fd.Pos()); a != nil {
+					// method of an opaque (abstract) receiver type: a function of the abstract value
+					fi.Params = append(fi.Params, param{rn, ty{K: kAbs, A: a}})
+					fi.OpaqueRecv = rt
+				} else {
+					s := t.findStruct(u.Dir, rt, u)
+					if s == nil {
+						t.unsupported(fd.Pos(), "receiver type %s of %s is not a whitelisted struct", rt, name)
+					}
+					fi.Recv, fi.RecvName = s, rn
 				}
 			} else {
 				fi.TypeParms = typeParamNames(fd.Type.TypeParams)
@@ -514,6 +532,9 @@ func (t *translator) analyse() {
 					if ix, ok := fun.(*ast.IndexExpr); ok {
 						fun = ix.X
 					}
+					if ix, ok := fun.(*ast.IndexListExpr); ok {
+						fun = ix.X
+					}
 					if id, ok := fun.(*ast.Ident); ok {
 						if c := t.findFunc(fi.Unit.Dir, id.Name, fi.Unit); c != nil && c != fi && c.Unit == fi.Unit {
 							fi.orderDeps = append(fi.orderDeps, c)
@@ -649,6 +670,9 @@ func (t *translator) emit(u *unit) string {
 	}
 	fmt.Fprintf(&b, "(* GENERATED by /verif/srcgen (srcgen -repo ... -out ...) -- DO NOT EDIT.\n")
 	fmt.Fprintf(&b, "   source: %s  (sha256 %s, %d lines)\n", u.Spec.GoFile, u.Sha, u.SrcLines)
+	for _, x := range u.ExtraSha {
+		fmt.Fprintf(&b, "   and:    %s\n", x)
+	}
 	if u.Spec.CapSlices {
 		fmt.Fprintf(&b, "   CAPACITY-AWARE unit: []T is GoSlice.slice (backing array up to the capacity + length); aliasing between\n   slices is NOT modelled; float32 factors are exact dyadic constants (ints below 2^24);\n")
 	}
@@ -773,6 +797,7 @@ func (t *translator) emit(u *unit) string {
 	sorted := append([]string(nil), names...)
 	sort.Strings(sorted) // a set: the emission order (callees first) is not part of the interface
 	fmt.Fprintf(&b, "Definition translated : Datatypes.list string := %s.\n", coqStrings(sorted))
+	sort.Strings(skipped)
 	fmt.Fprintf(&b, "Definition skipped : Datatypes.list string := %s.\n", coqStrings(skipped))
 	fmt.Fprintf(&b, "Definition not_selected : Datatypes.list string := %s.\n", coqStrings(u.NotSel))
 	return b.String()
